@@ -17,14 +17,15 @@ for pid in sys.argv[2:]:
     d=os.path.join(os.path.dirname(__file__),"..","seeded",pid)
     files=sorted(os.listdir(d+"/demo"))
     meta={
-      "property":pid,
+      "property":pid[:3],
+      "seed":pid,
       "breaks":open(d+"/notes.md",errors="replace").readline().lstrip("# ").strip(),
-      "needs_to_manifest":needs.get(pid,""),
+      "needs_to_manifest":needs.get(pid,"see notes.md (section on what is needed for the change to manifest)"),
       "patch":"patch.diff",
       "demonstration":"demo/ ("+", ".join(files[:6])+")",
       "author":"independent sub-agent given only the property text and a scratch worktree of /repo",
-      "confirmed_by":"scripts/seedcheck.sh %s  (scratch copy of /repo outside /repo and /verif; apply patch.diff; go build ./... ; go vet ./... ; the 434-test baseline suite: all 4 packages ok; demo fails with the patch and passes without it; then the 20 quick checks run against the scratch copy via CSVERIFY_REPO)"%pid,
-      "build_vet_tests": "ok" if "tests: 4 packages ok" in out else "NOT CONFIRMED",
+      "confirmed_by":"scripts/seedcheck.sh %s seeded/%s  (scratch copy of /repo outside /repo and /verif; apply patch.diff; go build ./... ; go vet ./... ; the 434-test baseline suite: all 4 packages ok; demo fails with the patch and passes without it; then the 20 quick checks run against the scratch copy via CSVERIFY_REPO)"%(pid[:3],pid),
+      "build_vet_tests": "ok" if "tests: 4 packages ok" in out else ("patch no longer applies to the repaired tree" if "PATCH DOES NOT APPLY" in out else "NOT CONFIRMED"),
       "caught_by":caught,
     }
     json.dump(meta,open(d+"/meta.json","w"),indent=1)
